@@ -61,6 +61,7 @@ type fScn struct {
 		Prior struct {
 			Px    int  `json:"px"`
 			D1    int  `json:"d1"`
+			Pb    int  `json:"pb"`
 			Local bool `json:"local"`
 		} `json:"prior"`
 		Refspec string `json:"refspec"`
@@ -75,6 +76,8 @@ func (s *fScn) priorKind() string {
 	switch {
 	case p.Px == 0:
 		return "empty"
+	case p.Pb > 0:
+		return "shallow1x2" // two branches fetched with depth 1: two independent boundary commits
 	case p.D1 > 1:
 		return "shallow2" // shallow with non-shallow commits (fetched with depth 2)
 	case p.D1 > 0:
